@@ -2,7 +2,7 @@
    inside a closure, so related operands give related results (equal results where the result is a
    bool).  The statements and proofs are those of the C01 package (Sem/OpsProofs.v) for a value
    relation that differs only in its closure case. *)
-From P2 Require Import Base.Prelude Base.PreludeProofs Sem.Num Sem.Syntax Sem.Ops Sem.Lib Sem.Ref Sem.Gen Sem.Opt Sem.OptRel Sem.OptRelProofs.
+From P2 Require Import Base.Prelude Base.PreludeProofs Sem.Num Sem.Syntax Sem.Ops Sem.Lib Sem.Ref Sem.Gen Sem.Sim Sem.RelProofs Sem.Opt Sem.OptRel Sem.OptRelProofs.
 Require Import Lia.
 Local Open Scope Z_scope.
 
@@ -12,7 +12,7 @@ Local Notation vrel := (OptRel.vrel known).
 Local Notation erel := (OptRel.erel known).
 Local Notation orel := (OptRel.orel known).
 
-Lemma fo_vrel : forall v, fo v = true -> vrel v v.
+Lemma fo_ovrel : forall v, fo v = true -> vrel v v.
 Proof.
   induction v as [z|f|s|b|l IH|m IH|ps b c s|t] using value_ind2; intros H;
     cbn [fo] in H; try discriminate; try constructor.
